@@ -326,7 +326,9 @@ func c16Oracle(info *runInfo, res *verifsim.Result) {
 	ws := append([]*write(nil), h.writes...)
 	sort.SliceStable(ws, func(i, j int) bool { return ws[i].seq < ws[j].seq })
 	for _, w := range ws {
-		if w.ra == nil || w.build == nil {
+		// (an RA that went out without a build of its own - a cached copy? - is
+		// judged as of the instant it was handed to the socket: modelFor)
+		if w.ra == nil {
 			continue
 		}
 		in, _ := modelFor(info, h, w)
